@@ -130,7 +130,7 @@ func oneCase(ctx *hk.RunCtx, r *hk.Rng, idx uint64) error {
 		return nil
 	}
 	ej := n.JSON()
-	ops := []string{"acc", "acc", "update", "update", "merge", "merge", "truncate", "truncate", "valueat", "round"}
+	ops := []string{"acc", "acc", "update", "update", "merge", "merge", "truncate", "truncate", "valueat", "round", "submerge", "submerge", "submerge"}
 	op := hk.Pick(r, ops)
 	ctx.Res.Hit("op:" + op)
 	switch op {
@@ -146,6 +146,146 @@ func oneCase(ctx *hk.RunCtx, r *hk.Rng, idx uint64) error {
 		return caseValueAt(ctx, r, idx, n, e, ej, resn)
 	case "round":
 		return caseRound(ctx, r, idx, resn)
+	case "submerge":
+		return caseSubMerge(ctx, r, idx, resn)
+	}
+	return nil
+}
+
+// caseSubMerge mirrors one output column of bytetree.node.doUpdate (params == nil):
+// out = out.SubMerge(in_i, ...) for every table column i for which the query
+// expression has a sub-merger.
+func caseSubMerge(ctx *hk.RunCtx, r *hk.Rng, idx uint64, otherRes time.Duration) error {
+	scale := hk.Pick(r, []int{1, 1, 2, 3, 5})
+	resn := time.Duration(scale) * otherRes
+	o := gen.ExprOpts{Fields: fields, MaxDepth: 1, Res: otherRes, NoShift: true, NoUnary: true}
+	nIn := r.Range(1, 3)
+	ins := make([]*gen.Node, nIn)
+	for i := range ins {
+		switch r.Intn(4) {
+		case 0:
+			ins[i] = &gen.Node{Kind: "if", C: r.Intn(len(gen.Conds)), Kids: []*gen.Node{gen.GenLeaf(r, o)}}
+		default:
+			ins[i] = gen.GenLeaf(r, o)
+		}
+	}
+	pickIn := func() *gen.Node { return ins[r.Intn(nIn)] }
+	var n *gen.Node
+	switch r.Intn(8) {
+	case 0, 1:
+		n = pickIn()
+	case 2, 3:
+		op := hk.Pick(r, []string{"+", "-", "*", "/", "<", ">="})
+		n = &gen.Node{Kind: "bin", Name: op, Kids: []*gen.Node{pickIn(), pickIn()}}
+		if r.Chance(1, 3) {
+			n = &gen.Node{Kind: "bin", Name: "+", Kids: []*gen.Node{n, {Kind: "const", Const: 2}}}
+		}
+	case 4:
+		n = &gen.Node{Kind: "shift", Off: -time.Duration(r.Range(0, 4)) * otherRes, Kids: []*gen.Node{pickIn()}}
+		if r.Chance(1, 3) {
+			n = &gen.Node{Kind: "bin", Name: "-", Kids: []*gen.Node{pickIn(), n}}
+		}
+	case 5:
+		n = &gen.Node{Kind: "if", C: r.Intn(len(gen.Conds)), Kids: []*gen.Node{pickIn()}}
+	case 6:
+		n = &gen.Node{Kind: "unary", Name: "LN", Kids: []*gen.Node{pickIn()}}
+	default:
+		n = gen.GenLeaf(r, o) // usually unrelated to the table columns
+	}
+	e := n.Build()
+	if err := e.Validate(); err != nil {
+		ctx.Res.Hit("invalid-expr")
+		return nil
+	}
+	inEs := make([]expr.Expr, nIn)
+	inJ := make([]interface{}, nIn)
+	for i, in := range ins {
+		inEs[i] = in.Build()
+		inJ[i] = in.JSON()
+	}
+	sms := e.SubMergers(inEs)
+	asOf := pickBound(r, otherRes)
+	until := pickBound(r, otherRes)
+	if r.Chance(1, 2) {
+		asOf = time.Time{}
+	}
+	if r.Chance(1, 2) {
+		until = time.Time{}
+	}
+	if e.Shift() != 0 && asOf.IsZero() {
+		// a zero asOf minus the shift overflows int64 inside RoundTimeUntilDown in the
+		// real code (outside the model's InRange hypothesis); group always passes the
+		// table's non-zero asOf
+		asOf = base.Add(-time.Duration(r.Range(5, 40)) * otherRes)
+	}
+	var stride time.Duration
+	if scale > 1 && r.Chance(1, 4) {
+		stride = time.Duration(r.Range(1, scale-1)) * otherRes
+	}
+	var out encoding.Sequence
+	rounds := r.Range(1, 3)
+	for round := 0; round < rounds; round++ {
+		meta := gen.GenPoint(r, fields)
+		inSeqs := make([]encoding.Sequence, nIn)
+		inSJ := make([]interface{}, nIn)
+		snaps := make([]opnd, nIn)
+		for i := range ins {
+			inSeqs[i] = genSeq(r, ins[i], inEs[i], otherRes, 6, 6)
+			inSJ[i] = decodeSeq(ins[i], inEs[i], inSeqs[i])
+			snaps[i] = snap(inSeqs[i])
+		}
+		req := map[string]interface{}{"engine": "seq", "op": "submerge", "e": n.JSON(), "inExs": inJ, "ins": inSJ,
+			"out": decodeSeq(n, e, out), "res": fmt.Sprint(int64(resn)), "otherRes": fmt.Sprint(int64(otherRes)),
+			"asof": tstr(asOf), "until": tstr(until), "stride": fmt.Sprint(int64(stride)), "pt": meta.JSON()}
+		any := false
+		for _, sm := range sms {
+			if sm != nil {
+				any = true
+			}
+		}
+		ctx.Res.Count(req, any && e.EncodedWidth() > 0)
+		if any {
+			ctx.Res.Hit("submerge:has-submerger")
+		} else {
+			ctx.Res.Hit("submerge:no-submerger")
+		}
+		if stride > 0 {
+			ctx.Res.Hit("submerge:stride")
+		}
+		if e.Shift() != 0 {
+			ctx.Res.Hit("submerge:shift")
+		}
+		next := out
+		if pn := hk.Recover(func() {
+			for i, sm := range sms {
+				if sm == nil {
+					continue
+				}
+				next = next.SubMerge(inSeqs[i], meta.Meta(), resn, otherRes, e, inEs[i], sm, asOf, until, stride)
+			}
+		}); pn != nil {
+			ctx.Res.Disagree(hk.Disagreement{Kind: "model-vs-impl", Case: req, Detail: fmt.Sprintf("SubMerge: impl panicked: %v", pn), Index: idx})
+			return nil
+		}
+		for i := range snaps {
+			if !snaps[i].untouched() {
+				ctx.Res.Disagree(hk.Disagreement{Kind: "property", Case: req, Detail: "SubMerge modified its source operand", PropertyFails: true, Index: idx})
+			}
+		}
+		impl := decodeSeq(n, e, next)
+		mo, err := ctx.Model.Call(req)
+		if err != nil {
+			return err
+		}
+		var m struct {
+			Seq json.RawMessage `json:"seq"`
+		}
+		json.Unmarshal(mo, &m)
+		if !sameJSON(impl, m.Seq) {
+			ctx.Res.Disagree(hk.Disagreement{Kind: "model-vs-impl", Case: req, Impl: impl, Model: m.Seq, Detail: "SubMerge", Index: idx})
+			return nil
+		}
+		out = next
 	}
 	return nil
 }
